@@ -4,10 +4,8 @@ import (
 	"encoding/json"
 	"fmt"
 	"os"
-	"os/exec"
 	"path/filepath"
 	"sort"
-	"strings"
 	"sync"
 )
 
@@ -40,11 +38,47 @@ func loadWitnesses(prop string) []Witness {
 	return ws
 }
 
+// variantOutcome: run prop on base with an overlay; returns fired rule ids and a status.
+func variantOutcome(base *World, prop string, overlay map[string][]byte) (status string, fired []string) {
+	w, err := LoadVariant(base, overlay)
+	if err != nil {
+		return "does-not-compile", nil
+	}
+	c := runProp(w, prop, "quick", 1)
+	viol, und, _ := c.Verdict()
+	f := map[string]bool{}
+	for _, o := range viol {
+		f[o.Rule] = true
+	}
+	for _, o := range und {
+		f[o.Rule] = true
+	}
+	if len(f) == 0 {
+		return "clean", nil
+	}
+	return "fired", keysOf(f)
+}
+
+var baseWorld *World
+var baseOnce sync.Once
+var baseErr error
+
+func getBase() (*World, error) {
+	baseOnce.Do(func() { baseWorld, baseErr = Load(LoadOpts{}) })
+	return baseWorld, baseErr
+}
+
 func runWitnesses(prop, tier string) []WitnessResult {
 	ws := loadWitnesses(prop)
 	res := make([]WitnessResult, len(ws))
-	exe, _ := os.Executable()
-	sem := make(chan struct{}, 8)
+	base, err := getBase()
+	if err != nil {
+		for i, w := range ws {
+			res[i] = WitnessResult{Name: w.Name, Expect: w.Expect, Outcome: "skipped(base load failed)"}
+		}
+		return res
+	}
+	sem := make(chan struct{}, 6)
 	var wg sync.WaitGroup
 	for i, w := range ws {
 		wg.Add(1)
@@ -52,39 +86,31 @@ func runWitnesses(prop, tier string) []WitnessResult {
 			defer wg.Done()
 			sem <- struct{}{}
 			defer func() { <-sem }()
-			args := []string{"-prop", prop, "-tier", "quick"}
-			for _, e := range w.Edits {
-				args = append(args, "-mutate", e)
-			}
-			cmd := exec.Command(exe, args...)
-			cmd.Env = append(os.Environ(), "VERIF_DIR="+verifDir())
-			out, _ := cmd.CombinedOutput()
 			r := WitnessResult{Name: w.Name, Expect: w.Expect}
-			code := cmd.ProcessState.ExitCode()
-			fired := map[string]bool{}
-			for _, l := range strings.Split(string(out), "\n") {
-				for _, k := range []string{"VIOLATED ", "UNDECIDED "} {
-					if strings.HasPrefix(l, k) {
-						f := strings.Fields(l)
-						if len(f) > 1 {
-							fired[f[1]] = true
-						}
-					}
+			ov, err := buildOverlay(w.Edits)
+			if err != nil {
+				r.Outcome = "skipped"
+				res[i] = r
+				return
+			}
+			st, fired := variantOutcome(base, prop, ov)
+			r.Fired = fired
+			has := false
+			for _, f := range fired {
+				if f == w.Expect {
+					has = true
 				}
 			}
-			r.Fired = keysOf(fired)
 			switch {
-			case code == 3 || strings.Contains(string(out), "MUTATION-NOT-APPLICABLE"):
-				r.Outcome = "skipped"
-			case strings.Contains(string(out), "LOAD ERROR"):
+			case st == "does-not-compile":
 				r.Outcome = "skipped(does-not-compile)"
-			case w.Expect == "" && code == 0:
+			case w.Expect == "" && st == "clean":
 				r.Outcome = "silent"
-			case w.Expect == "" && code != 0:
+			case w.Expect == "":
 				r.Outcome = "false-alarm"
-			case code == 0:
+			case st == "clean":
 				r.Outcome = "missed"
-			case fired[w.Expect]:
+			case has:
 				r.Outcome = "detected"
 			default:
 				r.Outcome = "wrong-rule"
